@@ -121,7 +121,12 @@ TEXTS_OK = [b"x", b"hello", b"a b", b"<", b">", b"&", b'"', b"'", b"]]>", b"a]]>
             b"\r\n", b"a\rb", b"a\nb", b"a\tb", b" lead", b"trail ", b"  ", b" ", b"\n  ", b"\xc3\xa9", b"\xe2\x82\xac",
             b"\xf0\x9d\x84\x9e", b"a&b<c>d\"e'f", b"&amp;", b"&#10;", b"&lt;tag&gt;", b"<![CDATA[", b"<!-- c -->", b"<?pi?>",
             b"1 < 2 && 3 > 2", b"BEGIN:VCARD\r\nVERSION:2.1\r\nN:Doe;John\r\nEND:VCARD\r\n", b"\xef\xbf\xbd", b"=", b"/>",
-            b"tab\there", b"  two  words  ", b"\x0b", b"\x0c x", b"a\xc2\xa0b"]
+            b"tab\there", b"  two  words  ", b"\x0b", b"\x0c x", b"a\xc2\xa0b",
+            # every continuation octet 0x80..0xBF after two lead octets (a table indexed by `octet & 0x7f` aliases them onto the
+            # ASCII markup characters), and one character per lead-octet class
+            "Par. \u00a77: 5\u00a2 for \u00bc or \u00be \u00a6 caf\u00e9".encode("utf-8"),
+            "".join(chr(c) for c in range(0xA0, 0x100)).encode("utf-8"),
+            "\u0100\u02b0\u03a9\u0416\u07ff\u0800\u4e00\ud7a3\ue000\U00010000\U0010fffd".encode("utf-8")]
 TEXTS_BAD = [b"\x01", b"a\x08b", b"\xff", b"\xc3", b"\xed\xa0\x80", b"\xef\xbf\xbe", b"a\x1fb", b"\x7f"]   # not XML characters / not UTF-8 (0x7f is one)
 NAMES_OK = [b"x", b"foo", b"a-b", b"a.b", b"_u", b"ns:el", b"X1", b"\xc3\xa9l"]
 NAMES_BAD = [b"1a", b"a b", b"a<b", b"-x", b"a\"b", b"a=b", b"a>", b"a&b", b""]
